@@ -1,5 +1,94 @@
 package main
 
-import "verifharness/internal/vh"
+import (
+	"context"
+	"fmt"
+	"os"
+	"time"
+
+	"github.com/logrange/logrange/pkg/model"
+	"github.com/logrange/logrange/pkg/utils/verifhook"
+	"verifharness/internal/lrsrv"
+	"verifharness/internal/vh"
+)
+
+// sectionHullRace is the deterministic replay of the schedule-dependent finding F46: the writer is parked between
+// Journal.Write (records become readable with the next flush) and onWriteCIndex (hull / index update); a RANGE query
+// issued in between must still return the readable in-range events.
+func sectionHullRace() {
+	sec := res.Section("hullrace", "system-correspondence",
+		"deterministic schedule: batch A (ts 100…) written and indexed; the writer of batch B (ts 200…) is parked at the hook partition.write.beforeCIndex, the harness waits until B is readable (unbounded read returns it), then queries RANGE [200:], [205:207], [:150] — IMPL vs SPEC (filtered unbounded read) vs MODEL (journal updated, chunk index not yet) — releases the writer and queries again; sizes of B from {1, 10, 300}; non-trivial = every query")
+	if !verifhook.Enabled {
+		res.Note("hullrace: hooks are not compiled in")
+		res.Done(sec)
+		return
+	}
+	for _, nb := range []int{1, 10, 300} {
+		dir := lrsrv.NewDir()
+		srv, err := lrsrv.Start(dir, lrsrv.Opts{MaxChunkSize: 250000, NoRPC: true})
+		if err != nil {
+			res.Note("hullrace: %v", err)
+			os.RemoveAll(dir)
+			continue
+		}
+		h := history{ChunkSize: 250000, Regime: "strict"}
+		r := &sysRun{h: h, srv: srv, ctx: context.Background(), sec: sec, section: "hullrace"}
+		rng := vh.NewRng(int64(nb))
+		r.ask("rw.reset 250000", func(string) {})
+		a := op{Kind: "write", Segs: []seg{{T: 100, N: 10, D: 1}}}
+		ok := r.doWrite(a, rng)
+		arrived := make(chan struct{}, 1)
+		gate := make(chan struct{})
+		verifhook.Set("partition.write.beforeCIndex", func() {
+			arrived <- struct{}{}
+			<-gate
+		})
+		bts := expand([]seg{{T: 200, N: nb, D: 1}})
+		doneW := make(chan struct{})
+		go func() {
+			defer close(doneW)
+			evs := make([]model.LogEvent, len(bts))
+			for i, t := range bts {
+				evs[i] = model.LogEvent{Timestamp: t, Msg: []byte(fmt.Sprintf("%06d", 10+i))}
+			}
+			srv.Parts.Write(context.Background(), tags, &wit{evs: evs}, true)
+		}()
+		parked := false
+		select {
+		case <-arrived:
+			parked = true
+		case <-time.After(5 * time.Second):
+			res.Note("hullrace: the writer did not reach the hook")
+		}
+		verifhook.Set("partition.write.beforeCIndex", nil)
+		if ok && parked {
+			r.allTs = append(r.allTs, bts...)
+			r.batches = append(r.batches, bts)
+			r.full = nil
+			if r.waitFlushed() {
+				r.ask("rw.writenoindex "+modelSpec(bts), func(string) {})
+				parkedQueries := []op{{Kind: "query", Lo: i64p(200)}, {Kind: "query", Lo: i64p(200 + int64(nb)/2), Hi: i64p(200 + int64(nb)/2 + 2)}, {Kind: "query", Hi: i64p(150)}}
+				for _, q := range parkedQueries {
+					r.hullRace = true
+					r.doQuery(q, false)
+				}
+			} else {
+				res.Note("hullrace: batch B did not become readable while its writer was parked")
+			}
+		}
+		close(gate)
+		<-doneW
+		srv.Stop()
+		os.RemoveAll(dir)
+		ans, err := vh.Batch(args.Driver, r.lines)
+		if err != nil {
+			res.Note("hullrace: driver: %v", err)
+		}
+		for i := range ans {
+			r.checks[i](ans[i])
+		}
+	}
+	res.Done(sec)
+}
 
 func sectionJIter(rng *vh.Rng) {}
